@@ -251,10 +251,11 @@ func (r *Runner) Step(op Op) bool {
 		if r.expect(op, want, err) {
 			res, viols := m.Pull(op.S, op.Max, now, resp.ReceivedMessages)
 			te.Pull, te.N = pullTrace(res.Returned), len(resp.ReceivedMessages)
-			if res.Truncated {
+			switch {
+			case res.Uncertain:
+				te.Info = "nondet" // also when truncated: even the size may differ
+			case res.Truncated:
 				te.Info = "truncated"
-			} else if !res.Det {
-				te.Info = "nondet"
 			}
 			if r.PruneRewindAt < 0 && m.C["limbo-by-prune-then-rewind"] > 0 {
 				r.PruneRewindAt = r.step
